@@ -187,6 +187,10 @@ class SourceModel:
                 for t in st.targets:
                     if isinstance(t, ast.Name):
                         ci.attrs[t.id] = st.value
+                    elif isinstance(t, (ast.Tuple, ast.List)) and isinstance(st.value, (ast.Tuple, ast.List)) and \
+                            len(t.elts) == len(st.value.elts) and all(isinstance(e, ast.Name) for e in t.elts):
+                        for e, v in zip(t.elts, st.value.elts):          # A, B = 1, 2 at class level
+                            ci.attrs[e.id] = v
             elif isinstance(st, ast.AnnAssign) and isinstance(st.target, ast.Name) and st.value is not None:
                 ci.attrs[st.target.id] = st.value
             elif isinstance(st, ast.ClassDef):
